@@ -167,6 +167,7 @@ func runExplore(r *engine.Run, prop string, cfg exploreCfg, rule string) {
 					if l.n.M == nil {
 						return
 					}
+					l.n.deepVerify = prop == "C04" || prop == "C07"
 					l.n.checkState(mkFail(ctxOf(l, nil)), cfg.FullViews)
 				},
 				Save: func(l *live) any {
